@@ -155,7 +155,7 @@ class SourceTree:
             try:
                 import importlib
                 val = getattr(importlib.import_module(full), name)
-                if isinstance(val, (int, float)):
+                if isinstance(val, (int, float, dict, tuple)):
                     interp.ctx.use(f'{full}.{name} = {val!r} (installed value)')
                     return val
             except Exception:
